@@ -22,7 +22,10 @@ Inductive builtin :=
 | BiType | BiIsArray | BiIsBoolean | BiIsFunction | BiIsNumber | BiIsObject | BiIsString | BiIsNull
 | BiLength | BiObjectHasEx | BiObjectFieldsEx | BiObjectHas | BiObjectHasAll | BiObjectFields | BiObjectFieldsAll
 | BiPrimitiveEquals | BiEquals | BiCompare | BiMakeArray | BiMap | BiFilter | BiFoldl | BiFoldr
-| BiRange | BiRepeat | BiSlice | BiJoin | BiMod | BiModulo | BiTrace | BiToString | BiAssertEqual.
+| BiRange | BiRepeat | BiSlice | BiJoin | BiMod | BiModulo | BiTrace | BiToString | BiAssertEqual
+(* stage 2 *)
+| BiAll | BiAny | BiSum | BiReverse | BiStringChars | BiChar | BiCodepoint | BiFlattenArrays
+| BiContains | BiMember | BiCount | BiStartsWith | BiEndsWith | BiMapWithIndex.
 
 Inductive cexpr :=
 | CNull
